@@ -189,6 +189,16 @@ func (x *c18) flags(c *vsched.RunCtx) vsched.Stats {
 	strs := stringsUpTo(3, alpha)
 	short := stringsUpTo(1, alpha)
 	qpss := []float64{math.NaN(), math.Inf(1), math.Inf(-1), -1, 0, 5e-324, 1e-300, 1e-10, 1e-9, 0.001, 1, 1000, 1000.0001}
+	// every float64 within 3 ulps of a threshold of the accepted range: 0, the rate whose interval is
+	// exactly MaxInt64 ns, 1 ns, 1 and 1000
+	for _, t := range []float64{0, float64(time.Second) / float64(math.MaxInt64), 1e-9, 1, 1000, float64(time.Second)} {
+		up, down := t, t
+		for i := 0; i < 3; i++ {
+			up, down = math.Nextafter(up, math.Inf(1)), math.Nextafter(down, math.Inf(-1))
+			qpss = append(qpss, up, down)
+		}
+		qpss = append(qpss, t)
+	}
 	ints := []int{math.MinInt, -1, 0, 1, math.MaxInt}
 	ptypes := []string{"noop", "stale_read", "strong_query", "stale_query", "dml", "read_write", "", "NOOP", "noop ", "x"}
 	good := func() {
